@@ -1,5 +1,5 @@
 """Which rules decide which property, with coverage floors counted on the pinned tree."""
-from . import rules_tables, rules_struct, rules_server, rules_traverse, rules_frames, rules_features, rules_units
+from . import rules_tables, rules_struct, rules_server, rules_traverse, rules_frames, rules_features, rules_units, rules_more
 
 _RULES = {
     "TABLES": rules_tables.rule_tables,
@@ -41,6 +41,14 @@ _RULES = {
     "CHAR-ESCAPES": rules_units.rule_char_escapes,
     "INDEX-ELEM": rules_units.rule_index_elem,
     "ONE-PER-ITEM": rules_units.rule_one_per_item,
+    "MESSAGE-SITE": rules_more.rule_message_site,
+    "DISPLAY-FIELDS": rules_more.rule_display_fields,
+    "KIND-FILTER": rules_more.rule_kind_filter,
+    "BUILTIN-SET": rules_more.rule_builtin_set,
+    "RELEX-WINDOW": rules_more.rule_relex_window,
+    "UPDATE-ORDER": rules_more.rule_update_order,
+    "DIAG-FLAG": rules_more.rule_diag_flag,
+    "IDENT-RANGE": rules_more.rule_ident_range,
 }
 
 _cache = {}
